@@ -57,10 +57,19 @@ def hessian_multiplier(prog: Program, rep) -> None:
     it = prog.cls("pygradflow.iterate.Iterate")
     xx = it.methods["aug_lag_deriv_xx"]
     n = 0
+    covered = set()
+    done = set()
     for c in prog.all_subclasses(ss, include_self=False):
-        if not prog.in_scope(c) or "update_derivs" not in c.methods:
+        if not prog.in_scope(c):
             continue
-        m = c.methods["update_derivs"]
+        m = prog.lookup_method(c, "update_derivs")
+        if m is None or prog.is_stub(m):
+            continue
+        covered.add(c.name)
+        if m.qualname in done:
+            continue   # inherited unchanged: decided at the defining class
+        done.add(m.qualname)
+        c = m.cls if getattr(m, "cls", None) is not None else c
         ff = facts_for(m)
         itp = [p for p in m.params if p != "self"][0]
         calls = [x for x in own_nodes(m.node) if isinstance(x, ast.Call) and isinstance(x.func, ast.Attribute) and x.func.attr == "aug_lag_deriv_xx"]
@@ -96,7 +105,8 @@ def hessian_multiplier(prog: Program, rep) -> None:
             if ok_m:
                 rep.check(has_jtj != scaled, "hessian-multiplier-jtj", m.qualname, short(si.stmt),
                           f"{c.name}: the rho*J'J term is " + ("eliminated through the (2,2) block" if scaled else "part of the Jacobian of the residual") + f" (found {vrepr(got)[:100]})", m.loc(call))
-    rep.pin("update_derivs overrides evaluating the Hessian", n, 3)
+    rep.pin("step solver classes whose effective update_derivs was examined", len(covered), 5)
+    rep.pin("update_derivs definitions evaluating the Hessian", n, 2)
 
 
 # ---------------------------------------------------------------------------------------------------
@@ -150,16 +160,18 @@ def elimination_constants(prog: Program, rep) -> None:
         for s in ff.order:
             st = s.stmt
             val = None
-            if isinstance(st, ast.Assign) and isinstance(st.value, ast.BinOp) and isinstance(st.value.op, ast.Add):
-                val = st.value
+            if isinstance(st, ast.Assign):
+                rv = ff.resolved(st, st.value)
+                if isinstance(rv, ast.BinOp) and isinstance(rv.op, ast.Add):
+                    val = rv
             elif isinstance(st, ast.AugAssign) and isinstance(st.op, ast.Add):
-                val = ast.BinOp(left=st.target, op=ast.Add(), right=st.value)
+                val = ast.BinOp(left=ff.resolved(st, ast.parse(U(st.target), mode="eval").body), op=ast.Add(), right=ff.resolved(st, st.value))
             if val is None:
                 continue
             for a, b in ((val.left, val.right), (val.right, val.left)):
                 if isinstance(b, ast.Call) and (dotted(b.func) or "").endswith("sparse.diags") and b.args and isinstance(b.args[0], ast.List) and len(b.args[0].elts) == 1:
-                    lv = ff.resolved(st, b.args[0].elts[0])
-                    at = U(ff.resolved(st, a)) if not isinstance(st, ast.AugAssign) else U(ff.resolved(st, ast.Name(id=U(a), ctx=ast.Load()))) if isinstance(a, ast.Name) else U(a)
+                    lv = b.args[0].elts[0]
+                    at = U(a)
                     try:
                         g = _tr(prog, m).value(lv)
                     except CannotNormalise:
@@ -367,13 +379,28 @@ def refresh_schedule(prog: Program, rep) -> None:
     asm = prog.func(base + "ActiveSetNewtonMethod.step")
     fa = facts_for(asm)
     ups = [s for s in fa.order if isinstance(s.stmt, ast.Expr) and isinstance(s.stmt.value, ast.Call) and U(s.stmt.value.func) == "self.step_solver.update_active_set"]
-    conds = set()
-    for s in ups:
-        extra = [f for f in s.facts if f not in fa.order[0].facts]
-        conds.add(tuple(sorted(extra)))
-    ok = len(ups) == 2 and any(any(f == ("is", "self._curr_active_set", "None") for f in c_) for c_ in conds) and \
-        any(any(f[0] == "truthy" and "!=" in f[1] and ".any()" in f[1] for f in c_) for c_ in conds)
-    rep.check(ok, "newton-refresh-schedule", asm.qualname, "update_active_set", "the active set of the ActiveSet variant is (re)installed when none is installed yet or when it changed", asm.loc())
+    # the number of update_active_set calls executed, as a function of N = (no set installed) and C = (installed set differs)
+    from .common import UnknownAtom, fact_holds
+    table = {}
+    try:
+        for N_, C_ in ((True, None), (False, True), (False, False)):
+            def val(at, N_=N_, C_=C_):
+                op, l, r = at
+                if (op, l, r) == ("is", "self._curr_active_set", "None"):
+                    return N_
+                if (op, l, r) == ("isnot", "self._curr_active_set", "None"):
+                    return not N_
+                if op in ("truthy", "falsy") and r is None and l.startswith("(self._curr_active_set != ") and l.endswith(").any()"):
+                    if C_ is None:
+                        raise AnalysisError("ActiveSetNewtonMethod.step compares the installed active set although none is installed")
+                    return C_ if op == "truthy" else not C_
+                raise UnknownAtom(str(at))
+            base_f = fa.order[0].facts
+            table[(N_, C_)] = sum(1 for s in ups if all(fact_holds(f, val) for f in s.facts if f not in base_f))
+    except UnknownAtom as e:
+        raise AnalysisError(f"ActiveSetNewtonMethod.step: the condition guarding update_active_set is not a function of `is None` / `!= ... any()`: {e}")
+    ok = table == {(True, None): 1, (False, True): 1, (False, False): 0}
+    rep.check(ok, "newton-refresh-schedule", asm.qualname, "update_active_set", f"the active set of the ActiveSet variant is (re)installed exactly when none is installed yet or when it changed (calls executed per case: {table})", asm.loc())
     rep.pin("Newton variant methods compared with the schedule table", n, 6)
 
 
@@ -446,17 +473,18 @@ def standard_solver(prog: Program, rep) -> None:
     ff = facts_for(m)
     itp = [p for p in m.params if p != "self"][0]
     rs = returns_of(m)
-    if len(rs) != 1:
-        raise AnalysisError("StandardStepSolver.solve: expected one return")
-    res = ff.resolved(rs[0], rs[0].value)
+    if not rs:
+        raise AnalysisError("StandardStepSolver.solve: no return")
     sr = prog.func("pygradflow.step.solver.step_solver.StepResult.__init__")
-    b = bind_args(sr, res) if isinstance(res, ast.Call) else None
-    if b is None:
-        raise AnalysisError("StandardStepSolver.solve does not return StepResult(...)")
     rhs = f"self.func.value_at({itp}, self.rho, self.active_set)"
-    dx, dy = U(b["dx"]), U(b["dy"])
-    ok = dx.endswith("[:self.n]") and dy.endswith("[self.n:]") and dx[: -len("[:self.n]")] == dy[: -len("[self.n:]")] and f".solve({rhs})" in dx
-    rep.check(ok, "standard-solver-wiring", m.qualname, short(rs[0]), "the Newton step is the solution of the linear system with right-hand side func.value_at(iterate, rho, active_set), split at n", m.loc(rs[0]))
+    for r in rs:
+        res = ff.resolved(r, r.value)
+        b = bind_args(sr, res) if isinstance(res, ast.Call) else None
+        if b is None:
+            raise AnalysisError("StandardStepSolver.solve does not return StepResult(...)")
+        dx, dy = U(b["dx"]), U(b["dy"])
+        ok = dx.endswith("[:self.n]") and dy.endswith("[self.n:]") and dx[: -len("[:self.n]")] == dy[: -len("[self.n:]")] and f".solve({rhs})" in dx
+        rep.check(ok, "standard-solver-wiring", m.qualname, short(r), "the Newton step is the solution of the linear system with right-hand side func.value_at(iterate, rho, active_set), split at n", m.loc(r))
     cd = prog.func("pygradflow.step.solver.standard_step_solver.StandardStepSolver._compute_deriv")
     st = [x for x in own_nodes(cd.node) if isinstance(x, ast.Assign) and any(U(t) == "self.deriv" for t in x.targets)]
     ok = len(st) == 1 and U(st[0].value) == "self.func.deriv(self.jac, self.hess, self.active_set)"
@@ -470,37 +498,114 @@ def standard_solver(prog: Program, rep) -> None:
 
 def asymmetric_structure(prog: Program, rep) -> None:
     """producer / consumer agreement inside AsymmetricStepSolver: overwrite_active_rows walks indptr/indices as ROWS, so the block
-    matrix must be assembled in CSR; the active rows become identity rows and the right-hand side carries b0 there."""
+    matrix must be assembled in CSR; the active rows become identity rows and the right-hand side carries b0 there.  All
+    constructs are identified by role (what they slice / what is stored into them), not by the names of the locals."""
+    from ..symex import resolve as _res
     q = "pygradflow.step.solver.asymmetric_step_solver.AsymmetricStepSolver"
     cd = prog.func(q + ".compute_deriv")
     ff = facts_for(cd)
     bm = [n for n in own_nodes(cd.node) if isinstance(n, ast.Call) and (dotted(n.func) or "").endswith("sparse.bmat")]
     if len(bm) != 1:
         raise AnalysisError("AsymmetricStepSolver.compute_deriv: expected one bmat call")
-    fmt = kwarg(bm[0], "format")
-    ow = prog.func(q + ".overwrite_active_rows")
-    uses_rows = any(isinstance(n, ast.Attribute) and n.attr == "indptr" for n in own_nodes(ow.node))
-    loop_over_n = any(isinstance(n, ast.For) and isinstance(n.iter, ast.Call) and dotted(n.iter.func) == "range" and U(n.iter.args[0]) in ("n", "self.n") for n in own_nodes(ow.node))
-    rep.check(isinstance(fmt, ast.Constant) and fmt.value == "csr" and uses_rows and loop_over_n, "asymmetric-row-format", cd.qualname, U(bm[0])[:80],
-              f"the matrix whose ACTIVE ROWS are overwritten through indptr/indices is assembled in CSR (found format={U(fmt) if fmt is not None else None})", cd.loc(bm[0]))
     si = ff.stmt_of(bm[0])
-    blocks = bm[0].args[0] if bm[0].args else None
+    fmt = kwarg(bm[0], "format")
+    fmt = ff.resolved(si.stmt, fmt) if fmt is not None else None
+    ow = prog.func(q + ".overwrite_active_rows")
+    fo = facts_for(ow)
+    mat = [p for p in ow.params if p != "self"][0]
+    uses_rows = any(isinstance(n, ast.Attribute) and n.attr == "indptr" and U(n.value) == mat for n in own_nodes(ow.node))
+    if not uses_rows:
+        raise AnalysisError("overwrite_active_rows no longer walks the matrix through indptr/indices")
+    rep.check(isinstance(fmt, ast.Constant) and fmt.value == "csr", "asymmetric-row-format", cd.qualname, U(bm[0])[:80],
+              f"the matrix whose ACTIVE ROWS are overwritten through indptr/indices is assembled in CSR (found format={U(fmt) if fmt is not None else None})", cd.loc(bm[0]))
+    blocks = ff.resolved(si.stmt, bm[0].args[0]) if bm[0].args else None
     ok = False
     if isinstance(blocks, ast.List) and len(blocks.elts) == 2:
         r0, r1 = blocks.elts
-        if len(r0.elts) == 2 and len(r1.elts) == 2:
-            t = [U(ff.resolved(si.stmt, e)) for e in (r0.elts[0], r0.elts[1], r1.elts[0], r1.elts[1])]
+        if isinstance(r0, ast.List) and isinstance(r1, ast.List) and len(r0.elts) == 2 and len(r1.elts) == 2:
+            t = [U(e) for e in (r0.elts[0], r0.elts[1], r1.elts[0], r1.elts[1])]
             ok = t[1] == "self.jac.T" and t[2] == "self.jac" and "sparse.diags" in t[3] and "self.hess" in t[0] and "sparse.diags" in t[0]
-    rep.check(ok, "asymmetric-blocks", cd.qualname, U(blocks)[:80] if blocks is not None else "", "the asymmetric system is [[H + lambda I, J'], [J, -lambda/(1+lambda rho) I]] before the active rows are replaced", cd.loc(bm[0]))
+    rep.check(ok, "asymmetric-blocks", cd.qualname, U(bm[0].args[0])[:80] if bm[0].args else "", "the asymmetric system is [[H + lambda I, J'], [J, -lambda/(1+lambda rho) I]] before the active rows are replaced", cd.loc(bm[0]))
     calls = [n for n in own_nodes(cd.node) if isinstance(n, ast.Call) and U(n.func) == "self.overwrite_active_rows"]
-    rep.check(len(calls) == 1 and U(calls[0].args[0]) == U(ff.stmt_of(bm[0]).stmt.targets[0]), "asymmetric-blocks", cd.qualname, "overwrite_active_rows(deriv)",
+    tgt = si.stmt.targets[0] if isinstance(si.stmt, ast.Assign) else None
+    rep.check(len(calls) == 1 and tgt is not None and U(calls[0].args[0]) == U(tgt), "asymmetric-blocks", cd.qualname, "overwrite_active_rows(deriv)",
               "the active rows of that matrix are replaced by identity rows", cd.loc())
-    # identity rows: data[:] = 0, data[k] = 1 at column j
-    stores = [U(n) for n in own_nodes(ow.node) if isinstance(n, ast.Assign) and isinstance(n.targets[0], ast.Subscript)]
-    ok = "curr_data[:] = 0.0" in stores and "curr_data[k] = 1.0" in stores and any(isinstance(n, ast.Call) and (dotted(n.func) or "") == "np.searchsorted" and [U(a) for a in n.args] == ["curr_cols", "j"] for n in own_nodes(ow.node))
-    rep.check(ok, "asymmetric-blocks", ow.qualname, "identity rows", "row j of an active variable becomes e_j (all stored entries zeroed, the diagonal entry set to one)", ow.loc())
+
+    # identity rows: in the row slice [indptr[j], indptr[j+1]) all stored entries are zeroed and the diagonal entry set to one
+    loops = [x for x in fo.order if isinstance(x.stmt, ast.For) and not x.loops]
+    if len(loops) != 1 or not isinstance(loops[0].stmt.target, ast.Name):
+        raise AnalysisError("overwrite_active_rows: expected one loop over the variables")
+    lp = loops[0].stmt
+    j = lp.target.id
+    sub_stores = [x for x in fo.order if isinstance(x.stmt, ast.Assign) and len(x.stmt.targets) == 1 and isinstance(x.stmt.targets[0], ast.Subscript) and lp in x.loops]
+    if not sub_stores:
+        raise AnalysisError("overwrite_active_rows: no stores into the row slices found")
+
+    def keep_j(x, e):
+        """resolve e at x, then spell the loop variable's value as `j` again."""
+        env = fo.at(x.stmt).env
+        txt = U(_res(e, env))
+        jt = U(env[j]) if j in env else j
+        return ast.parse(txt.replace(jt, j), mode="eval").body if not isinstance(e, ast.Slice) else ast.parse("_[" + txt.replace(jt, j) + "]", mode="eval").body.slice
+
+    def row_view(x, base, which):
+        """base is <matrix>.<which>[indptr[j]:indptr[j + 1]]"""
+        v = keep_j(x, base)
+        return isinstance(v, ast.Subscript) and U(v.value) == f"{mat}.{which}" and isinstance(v.slice, ast.Slice) and v.slice.step is None \
+            and v.slice.lower is not None and v.slice.upper is not None and U(v.slice.lower) == f"{mat}.indptr[{j}]" and U(v.slice.upper) == f"{mat}.indptr[{j} + 1]"
+
+    zero = one = colfix = None
+    other = []
+    for x in sub_stores:
+        t = x.stmt.targets[0]
+        sl = t.slice
+        full = isinstance(sl, ast.Slice) and sl.lower is None and sl.upper is None and sl.step is None
+        if row_view(x, t.value, "data"):
+            if full:
+                zero = (x, const_value(x.stmt.value))
+            else:
+                kk = keep_j(x, sl)
+                pos_ok = np_call(kk, "searchsorted") and len(kk.args) == 2 and U(kk.args[1]) == j and \
+                    isinstance(kk.args[0], ast.Subscript) and U(kk.args[0].value) == f"{mat}.indices" and U(kk.args[0].slice) == f"{mat}.indptr[{j}]:{mat}.indptr[{j} + 1]"
+                one = (x, const_value(x.stmt.value), pos_ok)
+        elif row_view(x, t.value, "indices"):
+            colfix = (x, U(keep_j(x, x.stmt.value)))
+        else:
+            other.append(x)
+    if zero is None or one is None:
+        raise AnalysisError("overwrite_active_rows: the zeroing / diagonal store into the row's data slice was not recognised")
+    ok = zero[1] == 0 and one[1] == 1 and one[2] and zero[0].index < one[0].index and (colfix is None or colfix[1] == j) and not other
+    rep.check(ok, "asymmetric-blocks", ow.qualname, "identity rows", "row j of an active variable becomes e_j (all stored entries zeroed, the diagonal entry - located by searchsorted "
+              "in the row's column indices - set to one)", ow.loc(one[0].stmt))
+    # ... and only for active j < n
+    it = fo.resolved(lp, lp.iter)
+    dom_ok = False
+    act = f"self.active_set[{j}]"
+    if isinstance(it, ast.Call) and dotted(it.func) == "range" and len(it.args) == 1 and U(it.args[0]) == "self.n":
+        fs = [f for f in fo.at(one[0].stmt).facts]
+        env_j = U(fo.at(one[0].stmt).env.get(j, ast.Name(id=j)))
+        dom_ok = any(f[0] == "truthy" and f[1] in (act, f"self.active_set[{env_j}]") for f in fs)
+    elif np_call(it, "flatnonzero") and len(it.args) == 1 and U(it.args[0]) in ("self.active_set", "self.active_set[:self.n]"):
+        dom_ok = True
+    elif isinstance(it, ast.Subscript) and const_value(it.slice) == 0 and np_call(it.value, "where", "nonzero") and len(it.value.args) == 1 and U(it.value.args[0]) in ("self.active_set", "self.active_set[:self.n]"):
+        dom_ok = True
+    elif isinstance(it, ast.ListComp) and len(it.generators) == 1 and isinstance(it.generators[0].target, ast.Name) and U(it.elt) == it.generators[0].target.id \
+            and len(it.generators[0].ifs) == 1 and U(it.generators[0].iter) == "range(self.n)" and U(it.generators[0].ifs[0]) == f"self.active_set[{it.generators[0].target.id}]":
+        dom_ok = True
+    else:
+        raise AnalysisError(f"overwrite_active_rows: iteration domain `{U(it)[:80]}` not recognised")
+    rep.check(dom_ok, "asymmetric-blocks", ow.qualname, short(lp), "exactly the rows of ACTIVE variables are replaced", ow.loc(lp))
+
     cr = prog.func(q + ".compute_rhs")
-    st = [U(n) for n in own_nodes(cr.node) if isinstance(n, ast.Assign) and isinstance(n.targets[0], ast.Subscript)]
+    fr = facts_for(cr)
     b0, b1, b2t = [p for p in cr.params if p != "self"][:3]
-    ok = f"rhs[-m:] = {b2t}" in st and f"var_rhs[active_set] = {b0}" in st and f"var_rhs[np.logical_not(active_set)] = {b1}" in st
-    rep.check(ok, "asymmetric-blocks", cr.qualname, "rhs", "the right-hand side carries b0 on the active rows, b1 on the inactive ones and b2t on the constraint rows", cr.loc())
+    got = {}
+    for x in fr.order:
+        if isinstance(x.stmt, ast.Assign) and len(x.stmt.targets) == 1 and isinstance(x.stmt.targets[0], ast.Subscript):
+            t = x.stmt.targets[0]
+            got[U(fr.resolved(x.stmt, x.stmt.value))] = (U(fr.resolved(x.stmt, t.value)), U(fr.resolved(x.stmt, t.slice)))
+    rets = returns_of(cr)
+    base = U(fr.resolved(rets[0], rets[0].value)) if len(rets) == 1 else None
+    ok = base is not None and got.get(b2t) == (base, "-self.m:") and got.get(b0) == (f"{base}[:self.n]", "self.active_set") and \
+        got.get(b1) == (f"{base}[:self.n]", "np.logical_not(self.active_set)")
+    rep.check(ok, "asymmetric-blocks", cr.qualname, "rhs", f"the right-hand side carries b0 on the active rows, b1 on the inactive ones and b2t on the constraint rows (found {got})", cr.loc())
